@@ -644,7 +644,10 @@ def generate(srcdir):
     # C19: login_calculate -- bytes copied from the password buffer, 32-bit words xored, bytes hashed
     login_c = strip_comments(read(srcdir, 'login.c'))
     C['LOGIN_COPY'] = anchored_int(login_c, r'login_calculate\s*\(.*?memcpy\s*\(\s*temp\s*,\s*pass\s*,\s*(\d+)\s*\)', 'login_calculate memcpy length', 'login.c')
-    C['LOGIN_WORDS'] = anchored_int(login_c, r'login_calculate\s*\(.*?for\s*\(\s*i\s*=\s*0\s*;\s*i\s*<\s*(\d+)\s*;\s*i\+\+\s*\)', 'login_calculate word loop bound', 'login.c')
+    # the bound of the loop over 32-bit WORDS (recognised by the ntohl in its body): a loop written over bytes instead is a different
+    # shape with a different bound -- then the recorded default stands and the correspondence on login_calculate decides
+    C['LOGIN_WORDS'] = anchored_int(login_c, r'login_calculate\s*\(.*?for\s*\(\s*i\s*=\s*0\s*;\s*i\s*<\s*(\d+)\s*;\s*i\+\+\s*\)\s*\{?\s*\w+\s*=\s*ntohl',
+                                    'login_calculate word loop bound', 'login.c')
     C['LOGIN_MD5_LEN'] = anchored_int(login_c, r'login_calculate\s*\(.*?md5_append\s*\(\s*&ctx\s*,\s*temp\s*,\s*(\d+)\s*\)', 'login_calculate md5_append length', 'login.c')
 
     # C05 anchors are local to C05 (same policy as C13): a missing anchor omits the constants, so that
